@@ -7,7 +7,7 @@ PROPS = {
         level_text=("Model-based property testing: the bounded space of outcome sequences x configurations is enumerated "
                     "completely and compared step by step with a reference model written from the statement; rapid extends "
                     "it to long sequences, real recovery times and concurrent callers. Exploration, not proof: sequences "
-                    "beyond the bound and schedules are sampled."),
+                    "beyond the bound and schedules are sampled. A further sub-check forwards several calls while the breaker is closed and lets some of them fail after the breaker has opened: the recovery time runs from the last failure."),
         level_note="Trusts the harness model of 'consecutive failures'; timed recovery asserted only within measured clock bounds; concurrency sampled from the Go scheduler.",
         rule=("exhaustive: every outcome sequence over {ok,error,panic} up to the length bound x thresholds x "
               "{zero, 24 h, 290 years, MaxInt64} recovery x mock absent/present (the error kind rotates with the position: plain, cancelled, wrapped cancelled, deadline, "
@@ -48,7 +48,7 @@ PROPS["C18"] = dict(
                 "per-cycle count oracles for the deterministic policies; a rapid state machine holds calls in flight so the true in-flight "
                 "vector is known and every least-active pick is checked against its argmin; failure-aware share reduction/restoration is "
                 "checked with wide statistical margins; concurrent callers are sampled for validity. For the plain least-active balancer the client's server list "
-                "shrinks and grows between steps, also while calls are in flight. Exploration with an exhaustive core."),
+                "shrinks and grows between steps, also while calls are in flight. Exploration with an exhaustive core. A further sub-check lets a server go down while several cycles of calls are in flight (it collects more failures than its weight) and checks that the servers that never failed keep their proportions afterwards."),
     level_note="Random policies: only validity and bookkeeping are asserted, never a distribution beyond 6-sigma / factor-2 margins; schedules of concurrent callers are sampled.",
     rule=("cycles: every weight vector in the bound x 3 full cycles x balancer; histories: every outcome history up to the bound x weight vectors; "
           "leastactive-model: rapid-drawn start/finish(ok|error|panic) traces with calls held in flight; share: victim server failing for ever or k<w times; "
@@ -83,7 +83,7 @@ PROPS["C15"] = dict(
                 "error must equal the onion computed from a list model of the four chains a call crosses (client invoke, client io, service io, service "
                 "invoke). In-flight changes are made while the harness holds a call parked inside a chosen handler, so the order is owned by the harness. "
                 "Free-running concurrent Use/Unuse is sampled and checked for structural validity only. Handler lists are also kept by the caller and passed again "
-                "(Use(list...), Unuse(list...), the same list on the other side)."),
+                "(Use(list...), Unuse(list...), the same list on the other side). Handlers may also call next twice (what a retrying plugin does): the layers below must then be passed twice, in order."),
     level_note="Handlers installed twice at the same time are not generated (the statement does not settle their removal semantics). A chain is taken to be obtained per manager when the call reaches it.",
     rule=("onion-seq / onion-aliased: rapid-drawn histories of client/service Use, Unuse (including absent and already removed handlers) and calls with an optional "
           "short-circuit or injected error at any handler; non-trivial = the history contains a call after an Unuse of an installed handler with at least 2 others installed. "
@@ -295,7 +295,7 @@ PROPS["C12"] = dict(
                 "headers, every combination of declared/actual length on UDP after another client's long datagram, short socket bodies then close/half-close/stall, HTTP bodies shorter "
                 "than Content-Length and chunked bodies: nothing may be delivered unless consistent. (e) a scripted peer sends the real client corrupted or inconsistent responses: "
                 "the caller must get an error, never bytes. (f) A conforming websocket peer sends requests in fragments of 1-7 bytes and messages shorter than the index header. "
-                "(g) A caller gives up an 8 MiB request that a slow peer is still reading and reuses its buffer: the service side must receive the submitted bytes or nothing. Two further sub-checks: the service behind a front end that compresses responses for clients announcing gzip (both http clients, compression on and off), and raw peers that pipeline many echo requests on a stream socket and read the responses late, with an echo that returns the request slice itself."),
+                "(g) A caller gives up an 8 MiB request that a slow peer is still reading and reuses its buffer: the service side must receive the submitted bytes or nothing. Two further sub-checks: the service behind a front end that compresses responses for clients announcing gzip (both http clients, compression on and off), and raw peers that pipeline many echo requests on a stream socket and read the responses late, with an echo that returns the request slice itself. Clients whose OnConnect hook wraps the connection (tcp, unix, udp) take part in the round trips."),
     level_note="On stream sockets and HTTP a declared length smaller than what follows is not generated: the surplus is by definition the next message of the same sender.",
     rule=("round-trip: rapid-drawn (endpoint, lengths, content), non-trivial = non-empty message; every-length / header-bit / declared-length / http-bodies / client-side-frames: enumerated, all non-trivial. "
           "Classes: transport, content kind, multi-buffer sizes, over-datagram, declared smaller/larger/equal. Distinct by case text."),
@@ -330,7 +330,7 @@ PROPS["C11"] = dict(
                 "followed by a broken frame) - is run on every transport it applies to (mock, tcp, unix, udp, websocket x2, http, fasthttp; worker pool 0/8; also behind the ExecuteTimeout and Oneway plugins) while a gated call of the same "
                 "client and one of another client are in flight: the faulty call must fail, the in-flight calls must complete (the same client's only unless the fault may cost its "
                 "connection), calls issued afterwards on both clients must succeed, and the process must survive. On UDP the result sizes around the datagram limit (65470..65500 bytes) are swept one by one. rapid draws sequences and bursts of faults per endpoint; small worker pools "
-                "(1, 2) face more dropped raw peers than they have workers. On the client side a scripted peer answers one of two pending calls with 15 kinds of faulty responses. Endpoints also sit behind the ExecuteTimeout and Oneway plugins and behind a concurrent limiter as outermost IO plugin, where after every fault all slots must be available again; a request larger than MaxRequestLength is one of the faults."),
+                "(1, 2) face more dropped raw peers than they have workers. On the client side a scripted peer answers one of two pending calls with 15 kinds of faulty responses. Endpoints also sit behind the ExecuteTimeout and Oneway plugins and behind a concurrent limiter as outermost IO plugin, where after every fault all slots must be available again; a request larger than MaxRequestLength is one of the faults. Two further sub-checks: a child process runs out of file descriptors while a client connects (the listener's accept fails with EMFILE) and must serve that client and later ones once descriptors are free again; behind a 40 ms ExecuteTimeout a function panics after its caller was answered, with calls of the same and of another client around it."),
     level_note="Server, clients and harness share one process per shard: a fault that kills the process is reported by the driver as a violation attributed to the case that was executing.",
     rule=("every-fault: enumerated (endpoint x applicable fault), all non-trivial; fault-sequences: rapid-drawn sequences; small-pool / client-side: enumerated. Classes: transport x fault level "
           "(call / connection / raw peer), pool. Distinct by case text."),
